@@ -57,6 +57,15 @@ type JHeader struct {
 	Jobs []JobDef `json:"jobs"`
 }
 
+// StepX is the required answer of a step (kept apart from its arguments: two variants of a
+// specification have the same steps but may require different answers).
+type StepX struct {
+	Status    int    `json:"status,omitempty"`
+	Fires     *bool  `json:"fires,omitempty"`
+	Completes *bool  `json:"completes,omitempty"`
+	Own       string `json:"own,omitempty"` // reference owner of the running sync before the step (diagnostics / finding triage)
+}
+
 // Fault is an injected pipeline fault (see spec/Jobs.tla).
 type Fault struct {
 	K string `json:"k"`
@@ -147,6 +156,13 @@ type Step struct {
 	Since uint64    `json:"since,omitempty"`
 	Page  *Page     `json:"page,omitempty"`
 	Obs   *Obs      `json:"obs,omitempty"` // backup steps: answers required of the restored hub
+
+	// full-sync steps (spec/FullSync.tla)
+	ID    string `json:"id,omitempty"`
+	Start bool   `json:"start,omitempty"`
+	End   bool   `json:"end,omitempty"`
+	Run   int    `json:"run,omitempty"`
+	X     *StepX `json:"x,omitempty"` // what the specification requires of this step's own answer
 
 	// job steps (spec/Jobs.tla)
 	J         int      `json:"j,omitempty"`
